@@ -26,6 +26,8 @@ def seeded_table():
         name = os.path.basename(os.path.dirname(m))
         needs = " ".join((d.get("needs") or "").split())[:260].replace("|", "\\|")
         det = ", ".join(d.get("detected_by", [])) or "**not caught**"
+        if d.get("outside_domain"):
+            det = "not claimed: " + d["outside_domain"][:110]
         if d.get("obsolete"):
             det = "obsolete on the current tree (" + d["obsolete"].split(": ", 1)[-1][:90] + "); caught when delivered: " + \
                 (", ".join((d.get("first_run") or {}).get("detected_by") or d.get("detected_by") or []) or "after strengthening")
